@@ -11,17 +11,25 @@ tied to the real drivers exhaustively over chip × SF × BW × band × prior reg
 `harness/src/c15.rs` (tie B).  After the three `fix:` commits the drivers call the generated
 `BaseBandModulationParams::new`, so the decision itself is tie A for all four implementations.
 
+The rule the property states is about the symbol time `2^SF / BW` of the bandwidth the chip
+realises.  The specification therefore carries its OWN table of the ten bandwidths
+(`Spec.Airtime.Bw.hz6`, exact, in sixths of a hertz) and every theorem below compares the code's
+decision with `Spec.Airtime.ldroPhys` on that table — not with a rule evaluated on the code's own
+`Bandwidth::hz()` constants (until round 4 it was: specification and code then shared the rounded
+15 630 Hz and nobody noticed that SF8 / 15.625 kHz = 16.384 ms was left OFF; DESIGN §9.36).
+
 Property theorems: `modulation_ldro`, `driver_ldro`, `programmed_bit`, `ldro_everywhere`,
-`thresholds_agree`, `ral_agrees`.
+`hz_constants_faithful`, `thresholds_agree`, `ral_agrees`.
 -/
 open Gen.Modulation Spec.Semtech Model.PhyArith
 
 namespace C15
 
 /-- **Airtime calculator.** `BaseBandModulationParams::new` never overflows and its `ldro` flag is the
-exact (untruncated) symbol-time rule `2^SF·10^6 ≥ 16380·BW`, for all 80 pairs and every coding rate. -/
+exact (untruncated, unrounded) symbol-time rule on the physical bandwidth, `2^SF / BW ≥ 16.38 ms`, for
+all 80 pairs and every coding rate. -/
 theorem modulation_ldro (sf : SpreadingFactor) (bw : Bandwidth) (cr : CodingRate) :
-    (BaseBandModulationParams.new sf bw cr).map (·.ldro) = some (Spec.Airtime.ldro sf.factor bw.hz) := by
+    (BaseBandModulationParams.new sf bw cr).map (·.ldro) = some (Spec.Airtime.ldroPhys sf.factor (specBw bw)) := by
   cases sf <;> cases bw <;> cases cr <;> decide
 
 /-- **Drivers.** For every chip variant, every SF, BW, CR and *every* RF frequency (unbounded `Int`):
@@ -29,7 +37,7 @@ theorem modulation_ldro (sf : SpreadingFactor) (bw : Bandwidth) (cr : CodingRate
 — without panic — the symbol-time rule's decision as 0/1. -/
 theorem driver_ldro (c : Chip) (sf : SpreadingFactor) (bw : Bandwidth) (cr : CodingRate) (rf : Int) :
     createModParams c sf bw cr rf =
-      if supports c sf.factor bw.hz rf then .ok (Rt.b2i (Spec.Semtech.ldro sf.factor bw.hz)) else .err := by
+      if supports c sf.factor (specBw bw) rf then .ok (Rt.b2i (Spec.Semtech.ldro sf.factor (specBw bw))) else .err := by
   unfold createModParams supports supportsAt
   by_cases h : rf < 400000000 <;> simp only [h, decide_true, decide_false] <;>
     cases c <;> cases sf <;> cases bw <;> cases cr <;> decide
@@ -46,32 +54,43 @@ theorem programmed_bit (c : Chip) (f : Fin 2) (prior : Fin 256) (bw : Bandwidth)
 
 /-- **C15 (main).** For every chip and every (SF, BW, CR, RF) the chip supports, the airtime
 calculator's flag, the driver's `low_data_rate_optimize` field and the bit the chip decodes from
-the programmed byte (for any prior register content) are all equal to the symbol-time rule. -/
+the programmed byte (for any prior register content) are all equal to the symbol-time rule on the
+physical bandwidth. -/
 theorem ldro_everywhere (c : Chip) (sf : SpreadingFactor) (bw : Bandwidth) (cr : CodingRate) (rf : Int)
-    (prior : Fin 256) (hs : supports c sf.factor bw.hz rf = true) :
+    (prior : Fin 256) (hs : supports c sf.factor (specBw bw) rf = true) :
     ∃ f : Int, createModParams c sf bw cr rf = .ok f ∧
-      f = Rt.b2i (Spec.Airtime.ldro sf.factor bw.hz) ∧
+      f = Rt.b2i (Spec.Airtime.ldroPhys sf.factor (specBw bw)) ∧
       (BaseBandModulationParams.new sf bw cr).map (fun p => Rt.b2i p.ldro) = some f ∧
       (ldroBit c (ldroByte c f.toNat prior.val (sx1272BwCode bw) (crCode cr)) : Int) = f := by
-  refine ⟨Rt.b2i (Spec.Airtime.ldro sf.factor bw.hz), ?_, rfl, ?_, ?_⟩
+  refine ⟨Rt.b2i (Spec.Airtime.ldroPhys sf.factor (specBw bw)), ?_, rfl, ?_, ?_⟩
   · rw [driver_ldro, hs]; rfl
   · have := modulation_ldro sf bw cr
     cases h : BaseBandModulationParams.new sf bw cr with
     | none => simp [h] at this
     | some p => simp [h] at this; simp [this]
-  · cases hl : Spec.Airtime.ldro sf.factor bw.hz
+  · cases hl : Spec.Airtime.ldroPhys sf.factor (specBw bw)
     · have := programmed_bit c 0 prior bw cr
       simp only [Rt.b2i] at *; simpa using congrArg (Int.ofNat) this
     · have := programmed_bit c 1 prior bw cr
       simp only [Rt.b2i] at *; simpa using congrArg (Int.ofNat) this
 
+/-- **The code's bandwidth constants.** The symbol-time rule evaluated on the whole-hertz constant
+`Bandwidth::hz()` decides like the rule on the physical bandwidth of the setting, for every spreading
+factor: no rounded constant sits on the other side of the 16.38 ms boundary from the bandwidth it
+stands for.  (`hz()` = 15 630 for the 15.625 kHz setting broke exactly this at SF8: 16.379 ms instead
+of 16.384 ms.  Only the decision is constrained — any constant that decides alike is accepted.) -/
+theorem hz_constants_faithful (sf : SpreadingFactor) (bw : Bandwidth) :
+    Spec.Airtime.ldro sf.factor bw.hz = Spec.Airtime.ldroPhys sf.factor (specBw bw) := by
+  cases sf <;> cases bw <;> decide
+
 /-- **Side lemma.** On the 80-entry table the thresholds 16.38 ms (datasheets), 16.384 ms (= 2^14 µs,
 the calculator's constant) and the calculator's truncated-microsecond comparison select the same
-pairs: no pair has a symbol time in [16.380, 16.384) ms (nearest: SF8/15.63 kHz = 16.379 ms off,
-SF7/7.81 kHz = 16.389 ms on). -/
+pairs: no pair has a symbol time in [16.380, 16.384) ms (the boundary pairs SF11/125 kHz,
+SF12/250 kHz, SF10/62.5 kHz, SF9/31.25 kHz, SF8/15.625 kHz, SF7/7.8125 kHz are all exactly
+16.384 ms, on). -/
 theorem thresholds_agree (sf : SpreadingFactor) (bw : Bandwidth) :
-    Spec.Airtime.ldro sf.factor bw.hz = decide (2 ^ sf.factor.toNat * 1000000 ≥ 16384 * bw.hz) ∧
-    Spec.Airtime.ldro sf.factor bw.hz = decide (Spec.Airtime.tsym sf.factor bw.hz ≥ 16384) := by
+    Spec.Airtime.ldroPhys sf.factor (specBw bw) = decide (2 ^ sf.factor.toNat * 6000000 ≥ 16384 * (specBw bw).hz6) ∧
+    Spec.Airtime.ldroPhys sf.factor (specBw bw) = decide (Spec.Airtime.tsym sf.factor bw.hz ≥ 16384) := by
   cases sf <;> cases bw <;> decide
 
 /-- **Cross-check of the specification against the vendor table.** Semtech's `ral_compute_lora_ldro`
@@ -80,20 +99,23 @@ particular for every LoRaWAN data rate — and is never *off* where the rule say
 (the vendor table is coarser below: it also enables LDRO for SF9/41.67 kHz = 12.3 ms and for every
 SF at ≤ 31.25 kHz). -/
 theorem ral_agrees (sf : SpreadingFactor) (bw : Bandwidth) :
-    (bw.hz ≥ 62500 → ralLdro sf.factor bw.hz = Spec.Airtime.ldro sf.factor bw.hz) ∧
-    (Spec.Airtime.ldro sf.factor bw.hz = true → ralLdro sf.factor bw.hz = true) := by
+    ((specBw bw).hz6 ≥ 375000 → ralLdro sf.factor (specBw bw) = Spec.Airtime.ldroPhys sf.factor (specBw bw)) ∧
+    (Spec.Airtime.ldroPhys sf.factor (specBw bw) = true → ralLdro sf.factor (specBw bw) = true) := by
   cases sf <;> cases bw <;> decide
 
 /-! Non-vacuity: the LoRaWAN boundary pairs named in the property text, on chips that support them. -/
-example : supports .sx1276 11 125000 868100000 = true := by decide
+example : supports .sx1276 11 .k125 868100000 = true := by decide
 example : createModParams .sx1276 ._11 ._125KHz ._4_5 868100000 = .ok 1 := by decide
 example : createModParams .sx1272 ._12 ._250KHz ._4_5 868100000 = .ok 1 := by decide
 example : createModParams .sx1262 ._10 ._62KHz ._4_5 868100000 = .ok 1 := by decide
 example : createModParams .lr1110 ._12 ._41KHz ._4_8 433050000 = .ok 1 := by decide
-example : createModParams .sx1261 ._8 ._15KHz ._4_5 169400000 = .ok 0 := by decide   -- 16.379 ms
-example : createModParams .sx1261 ._7 ._7KHz ._4_5 169400000 = .ok 1 := by decide    -- 16.389 ms
+example : createModParams .sx1261 ._8 ._15KHz ._4_5 169400000 = .ok 1 := by decide   -- 16.384 ms
+example : createModParams .sx1261 ._7 ._7KHz ._4_5 169400000 = .ok 1 := by decide    -- 16.384 ms
+example : createModParams .sx1261 ._8 ._20KHz ._4_5 169400000 = .ok 0 := by decide   -- 12.288 ms
 example : createModParams .sx1276 ._12 ._500KHz ._4_5 169400000 = .err := by decide   -- band rule
 example : ldroBit .sx1276 (ldroByte .sx1276 1 0xff 0 1) = 1 ∧ ldroBit .sx1276 (ldroByte .sx1276 0 0xff 0 1) = 0 := by decide
+/-- the specification's table disagrees with a rule evaluated on the rounded 15 630 Hz exactly at SF8 -/
+example : Spec.Airtime.ldro 8 15630 = false ∧ Spec.Airtime.ldroPhys 8 .k15 = true ∧ Spec.Airtime.ldro 8 15625 = true := by decide
 
 end C15
 
@@ -101,5 +123,6 @@ end C15
 #print axioms C15.driver_ldro
 #print axioms C15.programmed_bit
 #print axioms C15.ldro_everywhere
+#print axioms C15.hz_constants_faithful
 #print axioms C15.thresholds_agree
 #print axioms C15.ral_agrees
